@@ -159,6 +159,28 @@ CHECKS = {
         "scaled residue below 1e-18 dropped by a partial withdrawal is tolerated in the post-operation HF. Frozen bar only; liquidation is "
         "C12's subject. Sampled portfolios.",
     },
+    "C14": {
+        "technique": "reference-model monitor with a three-valued accept/reject frontier and invariants after each accepted operation, through the real Actuator with a live TWAP window",
+        "text": "Generated norm-factor / ETH / oSQTH paths (calm, crash, spike, one-bar wick; 1-min and 5-min bars; windows at the start of data) "
+        "run through the real Actuator with real timestamps so that the seven-minute geometric-mean TWAP is live; vaults with and without LP "
+        "collateral, several vaults, operation sequences incl. requests at (1 +- 1e-6)x the limit: mint / ETH withdrawal / LP withdrawal "
+        "accepted only at >= 1.5x and >= 0.5 ETH (must-accept with margin), bar-end liquidation iff below 1.5x with the two-stage amounts (LP "
+        "redeemed first with 2 % bounty, then half / all of the debt at TWAP oSQTH price x 1.1 capped at the collateral), non-negative vault "
+        "fields, wallet/vault moves equal to the stated oSQTH and ETH.",
+        "note": "Band 1e-9 around each limit (float TWAP). A negative vault is reported once and the rest of that case is not evaluated; a bounty "
+        "stopped at the vault's collateral is accepted. An exact collateral == payment tie is not generated. Sampled paths and sequences.",
+    },
+    "C15": {
+        "technique": "reference-model monitor: a sequential matching-engine model (per-instrument level lists, cash, positions, size-weighted averages) fed with the same order stream and compared after every order",
+        "text": "Generated books (1-12 instruments, 0-8 levels a side, int / float / mixed sizes, ETH and BTC steps) and order streams of 1-12 buys and "
+        "sells per bar in all pricing modes (market, price_in_token on / near / off a level, price_in_usd, mark-price caps excluding 0, some "
+        "or all levels), then a refresh and more orders, plus sweep scenes that empty a side in two orders: fills best-first at displayed "
+        "sizes, amount rounded half-up to the step, cost, fee = min(0.03 % x contracts, 12.5 % x premium) at the fee step, limit orders only "
+        "at their level, caps, shrunk book visible until the refresh, cash / position / averages, equity = cash + positions at mark, "
+        "unheld contracts unsellable.",
+        "note": "Book sizes and fill sums compared at 1e-9 (the book stores floats); books sorted best-first with bids <= mark <= asks; a level "
+        "exactly on a cap may go either way. Closed bars are C16's subject. Sampled books and streams.",
+    },
     "C04": {
         "technique": "invariant at quiescent points: deep state projection compared around every raising call, rejection sites taken from tracebacks",
         "text": "Frozen-market scenes of every market type (uniswap, aave, uniswap+aave, squeeth with its pool, deribit incl. closed bars, "
